@@ -117,7 +117,7 @@ def moasha_episode(sched_conf, schedule, rng_seed):
     modes = sched_conf["mode"] if isinstance(sched_conf["mode"], list) else [sched_conf["mode"]] * dim
     sign = [1 if m == "min" else -1 for m in modes]
     rf = Fraction(sched_conf["rf"]).limit_denominator(100)
-    calls, it, alive, trials = [], {}, {}, {}
+    calls, it, alive, trials, mine = [], {}, {}, {}, {}
     for h in schedule:
         t = h["t"]
         if t not in trials:
@@ -135,13 +135,17 @@ def moasha_episode(sched_conf, schedule, rng_seed):
         res = {"epoch": it[t]}
         res.update({m: float(v) for m, v in zip(metrics, vec)})
         # the rung this report reaches, by the property's vocabulary: a milestone of the trial's bracket equal to the
-        # current iteration at which the trial is not yet recorded
+        # current iteration.  The vectors recorded at the rung are tracked HERE (every trial that reported at the
+        # rung, stopped or not) -- the scheduler's own bookkeeping is not trusted.
+        bidx = next(i for i, b in enumerate(sched._brackets) if b is bracket)
+        mapped = [s_ * v for s_, v in zip(sign, vec)]
         rung = None
-        for milestone, recorded in bracket._rungs:
-            if it[t] == milestone and t not in recorded:
-                rung = (milestone, [[int(round(x)) for x in r.values()] for r in recorded.values()])
+        for milestone, _ in bracket._rungs:
+            if it[t] == milestone:
+                key = (bidx, milestone)
+                rung = (milestone, list(mine.get(key, [])))
+                mine.setdefault(key, []).append(mapped)
         d = sched.on_trial_result(trials[t], res)
-        mapped = [s * v for s, v in zip(sign, vec)]
         if it[t] >= sched_conf["max_t"]:
             calls.append({"f": "moasha_max", "d": d})
         elif rung is None:
